@@ -5,7 +5,7 @@
 //@ file searchlite-ffi/src/lib.rs
 //@ item fn searchlite_search
 //@ slice /if handle\.is_null\(\)/ .. /let query_str = /
-//@ header pub unsafe fn ffi_head(handle: *mut IndexHandle, query: *const c_char) -> usize
+//@ header pub unsafe fn ffi_head(handle: *mut IndexHandle, query: *const c_char, cursor: *const c_char, aggs_json: *const c_char, aggs_len: usize, out_json_buf: *mut c_char, buf_cap: usize) -> usize
 //@ early-return
 //@ tail 1 + query_str
 //@ rewrite R15 /CStr::from_ptr\((\w+)\)\.to_string_lossy\(\)\.to_string\(\)/ => k6_cstr_len(\1)
